@@ -266,4 +266,22 @@ theorem build_rejects (doc : Doc) (ie : Bool) (add : List TypeD) (e : Err) (h : 
       · exact extendSchema_err env live doc e h5
       · simp [pure, Except.pure] at h6
 
+/-- `input A { a: A = {a: null} }  type Query { f(a: A): Int }` (finding S1b) -/
+def s1bDoc : Doc := [
+  .type { kind := .input, name := "A", inputFields := [{ name := "a", type := .named "A", default := some (.obj [("a", .null)]) }] },
+  .type { kind := .object, name := "Query", fields := [{ name := "f", type := .named "Int", args := [{ name := "a", type := .named "A" }] }] }]
+
+/-- …and the second disjunct of `build_rejects` is needed: the full statement ("library errors only") is FALSE
+    on the fixed code — replay: corpus/C11 `S1b-self-default`. -/
+theorem build_rejects_full_refuted : ¬ BuildRejectsStatement := by
+  intro h
+  have hb : (match build s1bDoc with | .error (.internal "RecursionError") => true | _ => false) = true := by decide
+  cases hr : build s1bDoc with
+  | ok s => rw [hr] at hb; simp at hb
+  | error e =>
+    obtain ⟨l, hl⟩ := h s1bDoc false [] e hr
+    subst hl
+    rw [hr] at hb
+    simp at hb
+
 end PyGql.Props.C11
